@@ -522,6 +522,9 @@ class Check:
                 listed.setdefault(hit["text"], []).append(d)
         for text, ds in listed.items():
             print("KNOWN-FINDING: property=%s %s (%d cases this run)" % (self.pid, text, len(ds)))
+        with open(os.path.join(self.out, "divergences.ndjson"), "w") as f:
+            for d in self.divergences[:20000]:
+                f.write(json.dumps(dict(where=d["where"], observed=d["observed"], detail=str(d["detail"])[:1500])) + "\n")
         rc = 0
         if unlisted:
             rc = 1
